@@ -94,6 +94,19 @@ def check_string(s, names, mode, win, out, stream, converse=False):
     case_flag = 'CASE' in names
     icase = (('IGNORECASE' in names) or win) and not case_flag
     fl = flagval(names, mode, win)
+    if all(ord(c_) < 128 for c_ in s):
+        # is_magic() answers the same for the bytes spelling of a text
+        try:
+            ms_ = (F.is_magic if mode == 'fn' else G.is_magic)(s, flags=fl)
+            mb_ = (F.is_magic if mode == 'fn' else G.is_magic)(s.encode(), flags=fl)
+        except Exception:
+            ms_ = mb_ = None
+        out.evaluations += 1
+        if ms_ != mb_:
+            out.violation({'s': s, 'hex': s.encode().hex(), 'pattern': s, 'flags': names, 'mode': mode, 'win': win, 'converse': converse, 'stream': stream,
+                           'is_magic_str': ms_, 'is_magic_bytes': mb_, 'problem': 'is_magic() differs between str and bytes'},
+                          size=len(s) * 10 + len(names), bucket=('is-magic-bytes', mode, win))
+            return
     if converse:
         pat = s
         try:
